@@ -675,7 +675,9 @@ def run_ops(ops, timeout=240):
             rep["stats"]["history_ws_" + str(hist.get("ws"))] = 1
         out["detail"] = (out.get("detail") or "").replace(B, "<B>")
         try:
-            out["stdio"] = open(os.path.join(B, "stdio.txt"), errors="replace").read().replace(B, "<B>")[-4000:]
+            full_ = open(os.path.join(B, "stdio.txt"), errors="replace").read().replace(B, "<B>")
+            out["stdio_injected_msgs"] = full_.count("(injected")         # counted on the whole text: debug runs print a lot
+            out["stdio"] = full_[-4000:]
         except OSError:
             out["stdio"] = ""
         return out, rep
